@@ -167,6 +167,31 @@ class Ctx:
             e.update(env)
         return sh(cmd, cwd=cwd or self.dir, timeout=timeout, env=e, stdin=stdin)
 
+    # ---- coverage-guided differential fuzzing (failing-input search, never the proof) ----
+    def go_fuzz(self, pkg, target, secs, env=None):
+        """runs the Go native fuzz target <target> of harness/<pkg> (a _test.go file comparing the implementation with
+        the harness's independent oracle) for <secs> seconds against the tree under test. Returns None when no
+        difference was found, else {'message': ..., 'corpus_file': ...} (the failing input as Go writes it)."""
+        fdir = os.path.join(self.dir, 'fuzz-' + target)
+        shutil.rmtree(fdir, ignore_errors=True)
+        os.makedirs(fdir)
+        testbin = os.path.join(BUILD if ALT else os.path.join(HARNESS, 'bin'), pkg + '.fuzz.test')
+        os.makedirs(os.path.dirname(testbin), exist_ok=True)
+        rc, o = sh(['go', 'test', '-c', '-tags', 'verif', '-o', testbin, './' + pkg], cwd=HARNESS, env=go_env(), timeout=900)
+        if rc != 0:
+            raise BuildError('go test -c ./%s failed:\n%s' % (pkg, o[-2000:]))
+        cache = os.path.join(BUILD, 'fuzzcache', pkg, target)
+        os.makedirs(cache, exist_ok=True)
+        rc, o = self.run([testbin, '-test.run', '^$', '-test.fuzz', '^' + target + '$', '-test.fuzztime', '%ds' % secs,
+                          '-test.fuzzcachedir', cache, '-test.parallel', '8'], cwd=fdir, env=env, timeout=secs + 600)
+        self.notes.append('fuzz %s/%s %ds: %s' % (pkg, target, secs, ' | '.join(l.strip() for l in o.strip().split('\n')[-2:])[:300]))
+        if rc == 0:
+            return None
+        files = glob.glob(os.path.join(fdir, 'testdata', 'fuzz', target, '*'))
+        data = open(files[0], 'rb').read().decode('latin-1') if files else ''
+        msg = o[o.find('--- FAIL'):][:3000] if '--- FAIL' in o else o[-3000:]
+        return {'message': msg, 'corpus_file': data}
+
     # ---- model evaluation through cases.v + vm_compute ----
     def eval_cases_v(self, triples, imports, tag='m', shard=25):
         """triples: list of (id:int, coq_term_model:str, impl_observable:str-or-bytes).
